@@ -21,7 +21,8 @@ def gen_case(rng, min_len_only=False):
     mm = n // 2 + m
     size = 2 * mm + 2
     num = size if min_len_only else rng.randint(size, 60)
-    kind = rng.choice(['uniform', 'nonuniform', 'dyadic', 'almost-uniform', 'fine', 'graded', 'graded'])
+    kind = rng.choice(['uniform', 'nonuniform', 'dyadic', 'almost-uniform', 'fine', 'graded', 'graded', 'offset'])
+    center = Fraction(0)
     if kind == 'almost-uniform':
         # an equidistant grid with nodes displaced by a small fraction of the spacing: still an arbitrary grid, not a uniform one
         h = rng.choice([1.0, 0.5, 0.25, 0.1])
@@ -43,6 +44,13 @@ def gen_case(rng, min_len_only=False):
         h = 10.0 ** rng.uniform(-9, -5)
         base = rng.uniform(-2, 2)
         x = [base + h * (i + 0.3 * rng.uniform(-1, 1)) for i in range(num)]
+    elif kind == 'offset':
+        # a grid far from the origin compared with its spacing (time stamps 1.7e9 + 0.1 i, x ~ 1e6 with spacing 1e-3); the polynomial is
+        # written in the local variable t - x[0], so that its samples are well conditioned
+        base = rng.choice([1.7e9, 1.0e6, -3.0e4, 1.0e6 + 1.0 / 3])
+        h = rng.choice([0.1, 1e-3, 0.3, 0.01]) * (1.0 if abs(base) < 1e8 else rng.choice([1.0, 10.0]))
+        x = [base + h * i for i in range(num)]
+        center = Fraction(float(x[0]))
     elif kind == 'uniform':
         h = rng.choice([1.0, 0.5, 0.25, 0.125])
         base = rng.randint(-8, 8) / 4
@@ -61,7 +69,7 @@ def gen_case(rng, min_len_only=False):
         x = x[::-1]
     deg = rng.randint(0, 2 * mm) if rng.random() < 0.7 else 2 * mm        # the highest degree the property promises, often
     coef = [Fraction(rng.randint(-8, 8), rng.choice([1, 2, 4])) for _ in range(deg + 1)]
-    return n, m, [float(v) for v in x], coef, kind
+    return n, m, [float(v) for v in x], coef, (kind, center)
 
 
 def peval(coef, t):
@@ -141,8 +149,8 @@ def run(ctx):
     eng = ctx.engine('fdder.values')
     vc = []
     while len(vc) < ctx.budget(60, 600):
-        n, m, x, coef, kind = gen_case(rng)
-        if kind == 'nonuniform' or len(x) > 30:
+        n, m, x, coef, (kind, _center) = gen_case(rng)
+        if kind in ('nonuniform', 'offset') or len(x) > 30:
             continue
         fx = [peval(coef, Fraction(t)) for t in x]
         if any(float(v) != v for v in fx):
@@ -192,9 +200,9 @@ def run(ctx):
                           'input length; non-trivial: degree >= n; distinct = distinct (n, m, grid, polynomial)')
     worst = 0.0
     for it in range(ctx.budget(300, 4000) * (3 if (ctx.broken or ctx.mismatches) else 1)):
-        n, m, x, coef, kind = gen_case(rng, min_len_only=(it % 5 == 0))
+        n, m, x, coef, (kind, center) = gen_case(rng, min_len_only=(it % 5 == 0))
         mm = n // 2 + m
-        fxq = [peval(coef, Fraction(t)) for t in x]
+        fxq = [peval(coef, Fraction(t) - center) for t in x]
         fx = np.array([float(v) for v in fxq])
         xa = np.array(x)
         ctx.tried((n, m, tuple(x[:4]), len(x), tuple(coef)) if len(coef) - 1 >= n else None)
@@ -221,7 +229,7 @@ def run(ctx):
         dc = pder(coef, n)
         size = 2 * mm + 2
         for i in range(len(x)):
-            exact = float(peval(dc, Fraction(x[i])))
+            exact = float(peval(dc, Fraction(x[i]) - center))
             bound = _point_bound(None, xa, fx, n, mm, i, exact)
             d = abs(float(du[i]) - exact)
             worst = max(worst, d / bound)
